@@ -29,7 +29,7 @@ def build_jobs(t_, sd):
             enc_len = len(M.enc(t, M.fresh_value(t, "p", M.LenPlan(lv), [])))
             for pi, (path, ob) in enumerate(paths):
                 rt = any(s[0] == "rt" for s in path)
-                if rt and T.is_dynamic(t) and enc_len > (400 if thorough else 60):
+                if rt and T.is_dynamic(t) and enc_len > (120 if thorough else 60):
                     continue     # run-time index into a long encoding of dynamic elements: minutes per job (stated bound)
                 for vi, v in enumerate(versions):
                     if not thorough and (pi + vi + li) % 2:
